@@ -333,6 +333,20 @@ PROPERTY_RULES: Dict[str, List[Scoped]] = {
     ],
 }
 
+# eleventh batch of seeded changes
+for _pid11, _more11 in {
+    "C05": [_r("MASK-RANGE")],
+    "C09": [_r("GAIN-AT-LCA")],
+    "C11": [_r("NO-LAZY-VALUES")],
+    "C12": [_r("MODEL-TABLE"), _r("CONSERVED-SIDE"), _r("BINARIZE-GUARD")],
+    "C13": [_r("DRAW-NO-SKIP")],
+    "C14": [_r("EVENT-TABLE")],
+    "C16": [_r("UPDATE-POLICY-SYMMETRIC"), _r("PROXY-CELL-STORE")],
+    "C17": [_r("ANCESTRY-TOTAL")],
+    "C20": [_r("PARENT-ENCAPSULATED")],
+}.items():
+    PROPERTY_RULES[_pid11] = PROPERTY_RULES[_pid11] + _more11
+
 # development groups (not registered in MANIFEST.json)
 DEV_GROUPS = {
     "ALL": [(name, None) for name in RULES],
@@ -844,6 +858,20 @@ _DECIDED_ROUND10 = {
     'C18': ['only the -1 verdict is returned before the scan of subseq_segment_dist (SEGMENT-MACHINE answer-from-the-scan); Sequence parameters used as sequences (PROTOCOL-ONLY)'],
     'C20': ['supertree / all_supertrees hand the trees they are given to the triple decomposition and return its answer, nothing else (SUPERTREE-DELEGATES); PROTOCOL-ONLY'],
 }
+_DECIDED_ROUND11 = {
+    'C05': ['the candidate syntenies of an ancestral object are all sub-sequences of the root ordering, whoever enumerates them (MASK-RANGE)'],
+    'C09': ['a family is gained at the lowest common ancestor of all the leaves that carry it, not of the first and last in listing order (GAIN-AT-LCA)'],
+    'C11': ['no one-shot iterator is stored in a field, dictionary or record of the model (NO-LAZY-VALUES); no attribute of a parsed node is rewritten by the parser (FIELD-SOURCE tree-as-written)'],
+    'C12': ['the printed cost is the documented cost: evaluator against the model (MODEL-TABLE, CONSERVED-SIDE); both trees are tested before the already-binary shortcut (BINARIZE-GUARD); the cost is printed without a rounding format (COST-NO-ROUNDING printed-as-is)'],
+    'C13': ['every branch record is drawn: no jump in the loop of _tikz_draw_branches (DRAW-NO-SKIP)'],
+    'C14': ['the event classifier the layout asks is the documented one (EVENT-TABLE): a speciation sits on the LCA of its children, so the child it links on each side exists there'],
+    'C16': ['update compares every candidate under both merge policies, no early return and no fixed-direction min / max (UPDATE-POLICY-SYMMETRIC); the proxy stores the fresh entry into the cell (PROXY-CELL-STORE)'],
+    'C17': ['building the ancestry structure refuses no rooted tree, a query refuses only the empty set (ANCESTRY-TOTAL)'],
+    'C20': ['groups are formed from find(), parent links are not read elsewhere (PARENT-ENCAPSULATED)'],
+}
+for _k11, _v11 in _DECIDED_ROUND11.items():
+    _DECIDED_ROUND10.setdefault(_k11, [])
+    _DECIDED_ROUND10[_k11] = _DECIDED_ROUND10[_k11] + _v11
 for _k10, _v10 in _DECIDED_ROUND10.items():
     _DECIDED_ROUND9.setdefault(_k10, [])
     _DECIDED_ROUND9[_k10] = _DECIDED_ROUND9[_k10] + _v10
